@@ -9,7 +9,7 @@
    Proofs/WritersDict.v: wf_db (keys, field names, roles unique up to case; every role has a person -- what the API
    builds), map_ids.  Proofs/WritersTree.v: parts_ok p := reparse_person p = Ok p, yaml_ok, xml_ok. *)
 From Pybtex Require Import Base.Prelude Base.PyChar Base.PyStr Model.BibtexStr Model.Names Model.Scanner Model.BibParser Model.Writers
-  Proofs.Writers Proofs.WritersDict Proofs.WritersTree Proofs.WritersQuote Proofs.WritersPerson Proofs.WritersChain Proofs.WritersField Proofs.WritersName.
+  Proofs.Writers Proofs.WritersDict Proofs.WritersTree Proofs.WritersQuote Proofs.WritersPerson Proofs.WritersChain Proofs.WritersField Proofs.WritersName Proofs.WritersBib.
 
 (* ---- identifier lower-casing changes nothing but the letter case of keys, entry types, field names, roles *)
 Theorem lower_only_case : forall d, wf_db d -> lower_db d = Ok (map_ids lower d).
@@ -212,4 +212,45 @@ Proof.
   unfold expressible. repeat match goal with |- _ /\ _ => split end;
     first [ reflexivity | discriminate | solve [eexists; reflexivity] | solve [right; reflexivity] | solve [left; reflexivity]
           | solve [repeat constructor; discriminate] | solve [repeat constructor] ].
+Qed.
+
+(* ---- FILE LEVEL: the BibTeX writer's output read back by the BibTeX reader (strict mode, as parse_string runs).
+   [bib_ok enc d] (Proofs/WritersBib.v): d is API-buildable (wf_db); entry types are names other than
+   comment/string/preamble, keys have no whitespace , }, field names are NAMEs other than author/editor; NO PERSONS;
+   every field value is brace-balanced, whitespace-normalised (normalize_whitespace v = v) and left alone by the LaTeX
+   encoder (enc v = v: with latexcodec, no # % & _ ~ -- F18); the preamble text, if any, likewise.
+   The proof shows that write_stream emits exactly a rendering the reader theorems of the C01/C10 builder quantify
+   over (Proofs/BibFile.v item_text / item_reads: '@' type '{' key, then per field  ',' newline 4 spaces name ' = '
+   quoted value, newline '}' newline, an empty line between entries, '@preamble{' quoted text '}' first) and runs the
+   reader's loop over it in strict mode with no error reported.
+   Partial: persons (author / editor) are outside this theorem -- bibtex_name_roundtrip_partial covers one name, the
+   ' and '-joined list and its passage through process_entry are left to correspondence + oracle; so are values that
+   are not whitespace-normalised (the reader normalises them: not a round trip) and the five characters. *)
+Theorem bibtex_roundtrip_partial : forall enc d, bib_ok enc d -> write_read enc FBib d = Ok (norm_preamble d).
+Proof. exact bibtex_roundtrip_pf. Qed.
+Print Assumptions bibtex_roundtrip_partial.
+
+(* ---- chains of ANY formats (BibTeX, BibTeXML, YAML; any length), with or without identifier lower-casing, on the
+   common domain all_ok = tree_ok /\ bib_ok: the chain ends with [expect fs pc d], whose entries are those of d
+   (chain_entries_preserved) resp. those of d with ASCII-lower on keys, types, field names (chain_entries_lowered) --
+   otherwise only the preamble is joined into one text / not carried by BibTeXML.  (Lower-casing keeps the domain:
+   a lower-cased NAME is a NAME, a lower-cased key a key.)  Partial only through the domain: no persons, enc v = v. *)
+Theorem chain_roundtrip_partial : forall enc fs pc d, all_ok enc d -> chain enc fs pc d = Ok (expect fs pc d).
+Proof. exact chain_roundtrip_pc_pf. Qed.
+Print Assumptions chain_roundtrip_partial.
+
+Definition ex_db_bib : wdb :=
+  mkWDb [mkWE (s2l "Key1") (s2l "Book") [(s2l "Title", s2l "A {B} ""c"""); (s2l "YEAR", s2l "1984")] [];
+         mkWE (s2l "k2") (s2l "misc") [] []] [s2l "\def\x{y} "; s2l "z"].
+Example ex_bib_ok : all_ok latex_enc ex_db_bib /\
+  write_bibtex latex_enc ex_db_bib <> Ok [] /\
+  chain latex_enc [FBib; FYaml; FBib; FXml] true ex_db_bib = Ok (drop_preamble ex_db_bib) /\
+  chain latex_enc [FYaml; FBib; FBib] false ex_db_bib = Ok (norm_preamble (map_ids lower ex_db_bib)).
+Proof.
+  split; [|split; [intro H; vm_compute in H; discriminate H|split; vm_compute; reflexivity]].
+  unfold all_ok, tree_ok, bib_ok, wf_db, yaml_ok, xml_ok.
+  repeat match goal with |- _ /\ _ => split end;
+    try solve [repeat constructor; cbn; try (intros [H|H]; try discriminate H; try contradiction); try tauto; try discriminate];
+    try solve [repeat constructor; repeat split; reflexivity];
+    try solve [right; repeat split; vm_compute; reflexivity].
 Qed.
